@@ -30,9 +30,10 @@ LOG (decisions)
     accepted case (see Fix2Defs.w2_parts / Tree2.fix2_statement_b) and Canon.model_fixpoint is compared with the
     implementation on every case.
   - Findings of the fixpoint clause: fixpoint-initializer-empty-value-info (fixed in /repo by 420823a; Model.fill_pay
-    follows the fix) and reser-duplicate-initializer-bad-dtype (KNOWN, found by the proof attempt: a repeated
-    initializer name attaches the later tensor to the earlier value without reading its dtype, so
-    to_proto(from_proto(p)) may not deserialize; proposed_fixes/C17-duplicate-initializer-last-wins.diff).
+    follows the fix) and reser-duplicate-initializer-bad-dtype (found by the proof attempt: a repeated initializer
+    name attached the later tensor to the earlier value without reading its dtype, so to_proto(from_proto(p)) could
+    fail to deserialize; fixed in /repo by 3a09e57 = proposed_fixes/C17-duplicate-initializer-last-wins.diff;
+    Model.deser_inits / PUnfold.pu_inits follow the fix).
 * Tie: correspondence on every run (quick 500 cases + corpus, thorough 12000): mutation stream over generated
   valid protos (29 field-level mutation kinds, 1-5 per case: rename to existing/empty/new names, drop, duplicate,
   shuffle/reverse/cyclic nodes, unknown enum values in elem_type/data_type/attribute type, inconsistent tensor
@@ -931,7 +932,7 @@ def correspondence(ck, terms: list, tag: str) -> tuple:
     files = []
     chunk = 150
     for i in range(0, len(terms), chunk):
-        text = S.CASE_HEADER + (
+        text = S.CASE_HEADER + "From IRV Require Import C03.Tree C03.TreeF C17.Tree2 C17.PUnfold C17.Fix2Defs.\n" + (
             "Definition cases : list (list (N * N) * mproto * option obs * option (option mproto) * bool) :=\n  "
             + "[" + ";\n  ".join(terms[i:i + chunk]) + "].\n"
             "Eval vm_compute in (failing (fun c => let '(np, p, o, r, f) := c in agree_deser p o) cases).\n"
@@ -939,21 +940,26 @@ def correspondence(ck, terms: list, tag: str) -> tuple:
             "Eval vm_compute in (failing (fun c => let '(np, p, o, r, f) := c in\n"
             "   match r with Some (Some _) => Bool.eqb (model_fixpoint np p) f | _ => true end) cases).\n"
             "Eval vm_compute in (failing (fun c => let '(np, p, o, r, f) := c in\n"
-            "   match deser_model p with Ok (h, _) => inv_b h | Raise _ => true end) cases).\n")
+            "   match deser_model p with Ok (h, _) => inv_b h | Raise _ => true end) cases).\n"
+            # the component statements of the unconditional fixpoint theorem, on this proto
+            "Eval vm_compute in (failing (fun c => let '(np, p, o, r, f) := c in fix2_statement_b np p) cases).\n"
+            "Eval vm_compute in (failing (fun c => let '(np, p, o, r, f) := c in forallb (fun b => b) (w2_parts np p)) cases).\n")
         files.append((f"{tag}_{i // chunk}", text))
     outs = ck.coq_eval_many(files)
-    bad_d, bad_r, bad_f, bad_i = [], [], [], []
+    bad_d, bad_r, bad_f, bad_i, bad_s, bad_w = [], [], [], [], [], []
     for k, (rc, out) in enumerate(outs):
         if rc != 0:
             raise RuntimeError(f"case file {files[k][0]} did not compile:\n{out[-3000:]}")
         ls = _parse_lists(out)
-        if len(ls) != 4:
+        if len(ls) != 6:
             raise RuntimeError("unexpected coq output:\n" + out[-2000:])
         bad_d += [k * chunk + j for j in ls[0]]
         bad_r += [k * chunk + j for j in ls[1]]
         bad_f += [k * chunk + j for j in ls[2]]
         bad_i += [k * chunk + j for j in ls[3]]
-    return bad_d, bad_r, bad_f, bad_i
+        bad_s += [k * chunk + j for j in ls[4]]
+        bad_w += [k * chunk + j for j in ls[5]]
+    return bad_d, bad_r, bad_f, bad_i, bad_s, bad_w
 
 
 # --------------------------------------------------------------------------- shrinking / search
@@ -1114,13 +1120,14 @@ def run(ck) -> None:
                        "reser": res["reser"][0] if res["reser"] else None})
     ck.coverage["traces_validated_against_impl"] = len(terms)
     try:
-        bad_d, bad_r, bad_f, bad_i = correspondence(ck, terms, "c17")
+        bad_d, bad_r, bad_f, bad_i, bad_s, bad_w = correspondence(ck, terms, "c17")
     except RuntimeError as e:
-        bad_d, bad_r, bad_f, bad_i = [], [], [], []
+        bad_d, bad_r, bad_f, bad_i, bad_s, bad_w = [], [], [], [], [], []
         ck.broken("correspondence:case-files", str(e))
     diverging = []
     # inv_b on the model's own result: must hold by C17_consistent; a failure means Inv.inv_b and Inv drifted apart
-    for kind, lst in (("deser", bad_d), ("reser", bad_r), ("model-fixpoint", bad_f), ("model-inv_b", bad_i)):
+    for kind, lst in (("deser", bad_d), ("reser", bad_r), ("model-fixpoint", bad_f), ("model-inv_b", bad_i),
+                      ("fix2-statement", bad_s), ("punfold-statements", bad_w)):
         for j in lst[:3]:
             p, desc, res = cases[term_idx[j]]
             diverging.append(p)
